@@ -56,7 +56,32 @@ impl CgCtx {
             .iter()
             .enumerate()
             .filter_map(|(state_idx, state)| {
-                if state.predecessors.len() == 1 {
+                if state.predecessors.len() != 1 || state.initial {
+                    return None;
+                }
+
+                // The predecessor generates one `match` arm for all of its char transitions to
+                // this state, one for all range transitions, and one for the any transition.
+                // Only inline the state when there is a single such arm: otherwise code of the
+                // state (and of the states inlined in it) is duplicated in every arm, and
+                // generated code size grows exponentially with the length of a chain of such
+                // states.
+                let predecessor = &dfa.states[state.predecessors.iter().next().unwrap().0];
+
+                let is_target = |trans: &Trans<SemanticActionIdx>| -> bool {
+                    matches!(trans, Trans::Trans(next) if next.0 == state_idx)
+                };
+
+                let n_arms = usize::from(predecessor.char_transitions.values().any(is_target))
+                    + usize::from(
+                        predecessor
+                            .range_transitions
+                            .iter()
+                            .any(|range| is_target(&range.value)),
+                    )
+                    + usize::from(predecessor.any_transition.iter().any(is_target));
+
+                if n_arms == 1 {
                     Some(StateIdx(state_idx))
                 } else {
                     None
@@ -86,6 +111,12 @@ impl CgCtx {
         match self.inlined_states.binary_search(&state) {
             Ok(idx) | Err(idx) => state.map(|state_idx| state_idx - idx),
         }
+    }
+
+    /// Whether code for the state is generated in place of the transition to it, instead of as an
+    /// arm of the `match` on the current state.
+    pub fn is_inlined(&self, state: StateIdx) -> bool {
+        self.inlined_states.binary_search(&state).is_ok()
     }
 
     pub fn n_inlined_states(&self) -> usize {
